@@ -136,6 +136,11 @@ func (r *timeoutDelimitedReader) readDelimitedMessageRaw() ([]byte, error) {
 
 func (r *timeoutDelimitedReader) read(numBytes int) ([]byte, error) {
 	data := make([]byte, numBytes)
+	if numBytes == 0 {
+		// Nothing to read. (A zero-length Read may block, for example
+		// on an io.Pipe, until the peer writes something else.)
+		return data, nil
+	}
 	var offs int
 	for {
 		numRead, err := r.in.Read(data[offs:])
